@@ -1,1 +1,2 @@
 import SmoothProps.C01
+import SmoothProps.C18
